@@ -24,9 +24,14 @@ let archive_of folders =
        | [] -> None)
     | _ -> acc) None folders
 
+(* the index of each (case, device) after the previous step: whole-folder operations
+   (forced overwrite, forget) are applied to it rather than rebuilt *)
+let prev : (string * string, (string, string) index) Hashtbl.t = Hashtbl.create 16
+
 let run_line (line : string) : unit =
   match String.split_on_char ' ' line |> List.filter (fun s -> s <> "") with
-  | _ :: case :: step :: who :: folders when folders <> [] ->
+  | _ :: case :: step :: who :: toks when toks <> [] ->
+    let markers, folders = List.partition (fun t -> String.length t > 0 && t.[0] = '@') toks in
     let x = ref (new_index (archive_of folders)) in
     let labels : (string * string, string) Hashtbl.t = Hashtbl.create 16 in
     let bad = ref false in
@@ -49,10 +54,22 @@ let run_line (line : string) : unit =
           | _ -> bad := true) evs) folders;
     if !bad then Printf.printf "%s unmodelled\n" case
     else begin
+      (* @force=<folder>: the step overwrote the folder wholesale: model = ix_force (previous index) folder (new contents)
+         @forget: the step dropped a folder from memory: model = ix_forget (previous index) (each folder no longer listed) *)
+      let names = List.filter_map (fun fe -> match String.index_opt fe '=' with Some k -> Some (String.sub fe 0 k) | None -> None) folders in
+      (match markers, Hashtbl.find_opt prev (case, who) with
+       | m :: _, Some p when String.length m > 7 && String.sub m 0 7 = "@force=" ->
+         let f = String.sub m 7 (String.length m - 7) in
+         x := ix_force String.equal String.equal p f (List.filter (fun d -> d.d_folder = f) !x.docs)
+       | "@forget" :: _, Some p ->
+         let gone = List.sort_uniq compare (List.filter_map (fun d -> if List.mem d.d_folder names then None else Some d.d_folder) p.docs) in
+         x := List.fold_left (fun y f -> ix_forget String.equal String.equal y f) p gone
+       | _ -> ());
+      Hashtbl.replace prev (case, who) !x;
       let fs = List.sort_uniq compare (List.map (fun d -> d.d_folder) !x.docs) in
       let docs = List.map (fun f ->
         let ls = List.sort compare (List.filter_map (fun d ->
-          if d.d_folder = f then Some (Hashtbl.find labels (f, d.d_id)) else None) !x.docs) in
+          if d.d_folder = f then Some (match Hashtbl.find_opt labels (f, d.d_id) with Some l -> l | None -> "?" ^ d.d_id) else None) !x.docs) in
         f ^ ":" ^ String.concat ";" ls) fs in
       let vc = List.filter_map (fun (f, n) -> let n = int_of_nat n in if n > 0 then Some (Printf.sprintf "%s:%d" f n) else None)
           (List.sort compare !x.c_vaults) in
